@@ -14,7 +14,9 @@ import (
 // the proved fragment: programs, their jq text, their prefix form for the driver
 
 type q struct {
-	kind string // id const pipe comma iter empty arr param call
+	kind string // id const pipe comma iter empty arr param call error try trycatch index ite alt
+	k    string // index: the field name
+	c3   *q     // ite: else branch
 	c    any    // const
 	f    int    // call
 	a, b *q
@@ -59,6 +61,21 @@ func (e *q) text() string {
 		return "g"
 	case "call":
 		return fmt.Sprintf("f%d(%s)", e.f, e.a.text())
+	case "error":
+		return "error"
+	case "index":
+		return "." + e.k
+	case "ite":
+		if e.c3.kind == "id" && len(e.k) > 0 {
+			return "(if " + e.a.text() + " then " + e.b.text() + " end)"
+		}
+		return "(if " + e.a.text() + " then " + e.b.text() + " else " + e.c3.text() + " end)"
+	case "alt":
+		return "(" + e.a.text() + " // " + e.b.text() + ")"
+	case "try":
+		return "(try (" + e.a.text() + "))"
+	case "trycatch":
+		return "(try (" + e.a.text() + ") catch (" + e.b.text() + "))"
 	}
 	panic(e.kind)
 }
@@ -67,12 +84,19 @@ func (e *q) prefix(sb *strings.Builder) {
 	switch e.kind {
 	case "const":
 		sb.WriteString("c " + common.Canon(e.c) + " ")
-	case "pipe", "comma":
+	case "index":
+		sb.WriteString("index " + common.Canon(e.k) + " ")
+	case "ite":
+		sb.WriteString("ite ")
+		e.a.prefix(sb)
+		e.b.prefix(sb)
+		e.c3.prefix(sb)
+	case "pipe", "comma", "trycatch", "alt":
 		sb.WriteString(e.kind + " ")
 		e.a.prefix(sb)
 		e.b.prefix(sb)
-	case "arr":
-		sb.WriteString("arr ")
+	case "arr", "try":
+		sb.WriteString(e.kind + " ")
 		e.a.prefix(sb)
 	case "call":
 		fmt.Fprintf(sb, "call %d ", e.f)
@@ -87,7 +111,7 @@ func (e *q) count(m map[string]int) int {
 		return 0
 	}
 	m[e.kind]++
-	return 1 + e.a.count(m) + e.b.count(m)
+	return 1 + e.a.count(m) + e.b.count(m) + e.c3.count(m)
 }
 
 func (p *prog) text() string {
@@ -118,9 +142,14 @@ func genQ(r *common.Rand, depth, maxF int, inFunc bool) *q {
 			return &q{kind: "id"}
 		case k < 5:
 			return &q{kind: "const", c: common.Pick(r, miniConsts)}
-		case k < 7:
+		case k < 6:
 			return &q{kind: "iter"}
+		case k < 7:
+			return &q{kind: "index", k: common.Pick(r, []string{"a", "b", "k"})}
 		case k < 8:
+			if r.Bool() {
+				return &q{kind: "error"}
+			}
 			return &q{kind: "empty"}
 		default:
 			if inFunc {
@@ -129,7 +158,21 @@ func genQ(r *common.Rand, depth, maxF int, inFunc bool) *q {
 			return &q{kind: "id"}
 		}
 	}
-	switch k := r.Intn(12); {
+	switch k := r.Intn(19); {
+	case k == 15 || k == 16:
+		e := &q{kind: "ite", a: genQ(r, depth-1, maxF, inFunc), b: genQ(r, depth-1, maxF, inFunc)}
+		if r.Chance(1, 4) {
+			e.c3, e.k = &q{kind: "id"}, "noelse" // `if c then a end`
+		} else {
+			e.c3 = genQ(r, depth-1, maxF, inFunc)
+		}
+		return e
+	case k > 16:
+		return &q{kind: "alt", a: genQ(r, depth-1, maxF, inFunc), b: genQ(r, depth-1, maxF, inFunc)}
+	case k == 12:
+		return &q{kind: "try", a: genQ(r, depth-1, maxF, inFunc)}
+	case k > 12:
+		return &q{kind: "trycatch", a: genQ(r, depth-1, maxF, inFunc), b: genQ(r, depth-1, maxF, inFunc)}
 	case k < 3:
 		return &q{kind: "pipe", a: genQ(r, depth-1, maxF, inFunc), b: genQ(r, depth-1, maxF, inFunc)}
 	case k < 6:
@@ -252,14 +295,16 @@ func canonCode(ins []gojq.VerifInstr) string {
 	var decl []scopeAt
 	for k, in := range ins {
 		switch in.Op {
-		case "const", "push":
+		case "const", "push", "index":
 			parts[k] = in.Op + " " + common.Canon(in.Value)
 		case "store", "load", "append":
 			s, i := regOf(in.Ints[0], in.Ints[1])
 			parts[k] = fmt.Sprintf("%s %d %d", in.Op, s, i)
-		case "fork", "jump", "call", "pushpc":
-			if in.Kind != "int" {
-				parts[k] = in.Op + " ?" + in.Kind + " " + in.Name
+		case "fork", "jump", "call", "pushpc", "forktrybegin", "jumpifnot":
+			if in.Kind == "native" {
+				parts[k] = fmt.Sprintf("%s %s/%d", in.Op, in.Name, in.Argc)
+			} else if in.Kind != "int" {
+				parts[k] = in.Op + " ?" + in.Kind
 			} else {
 				parts[k] = fmt.Sprintf("%s %d", in.Op, in.Int)
 			}
